@@ -565,11 +565,30 @@ def pattern_stream(ctx, n_random: int, n_strings: int) -> List[Dict[str, Any]]:
             seen.add(p)
             patterns.append(p)
     results: List[Dict[str, Any]] = []
-    B = 400
-    for k in range(0, len(patterns), B):
-        results += lib.impl_call("xsd_run.py", {"mode": "patterns", "patterns": patterns[k:k + B],
-                                               "seed": rng.getrandbits(32), "n_strings": n_strings},
-                                 timeout=1500)
+    B = 100
+    batches = [(patterns[k:k + B], rng.getrandbits(32)) for k in range(0, len(patterns), B)]
+
+    def run_batch(job):
+        batch, batch_seed = job
+        try:
+            return lib.impl_call("xsd_run.py", {"mode": "patterns", "patterns": batch,
+                                                "seed": batch_seed, "n_strings": n_strings},
+                                 timeout=900)
+        except lib.HarnessError:
+            raise
+        except Exception as exc:  # noqa  (subprocess.TimeoutExpired on an overloaded machine)
+            return exc
+
+    with concurrent.futures.ThreadPoolExecutor(max_workers=4) as pool:
+        outs = list(pool.map(run_batch, batches))
+    timed_out = [o for o in outs if isinstance(o, Exception)]
+    if timed_out and len(timed_out) == len(outs):
+        raise lib.HarnessError(f"every batch of the pattern stream failed: {timed_out[0]!r}"[:600])
+    for o in outs:
+        if not isinstance(o, Exception):
+            results += o
+    if timed_out:
+        ctx.assume(f"{len(timed_out)} of {len(outs)} pattern batches timed out and were skipped")
     cases = []
     index = []
     for i, r in enumerate(results):
